@@ -475,7 +475,7 @@ hbuild!(c18_build_int_bool, Int, false, Bool, false);
 hparse!(c18_parse_int_bool, Int, false, Bool, false, 45);
 // @obl harness=c18_build_bool_int_n1 id=C18.build_layout[build:BigInt|Bool,Int/NULL] tier=thorough funcs="TupleBuilder::build,TupleBuilder::compute_initial_size,TupleBuilder::write_initial,Row::validate,Payload::alloc_aligned,DataType::write_to" bounds="stage A of 3 (A build -> bytes, B parse_last_version -> cursors = c18_parse_bool_int_n1, C value_with/key_with -> values = c18_read_*/c18_read_key); 1 key BigInt + values Bool, Int, value1 NULL; all value bits and xmin symbolic" unwind=4
 hbuild!(c18_build_bool_int_n1, Bool, false, Int, true);
-// @obl harness=c18_parse_bool_int_n1 id=C18.build_layout[parse:BigInt|Bool,Int/NULL] tier=thorough funcs="TupleReader::parse_last_version,TupleReader::check_null,TupleHeader::read_from,DataTypeKind::deserialize" bounds="stage B of 3; any 41-byte 8-aligned buffer of the shape's layout (bitmap byte fixed to the NULL pattern, every other byte incl. header symbolic)" unwind=3
+// @obl harness=c18_parse_bool_int_n1 id=C18.build_layout[parse:BigInt|Bool,Int/NULL] tier=quick funcs="TupleReader::parse_last_version,TupleReader::check_null,TupleHeader::read_from,DataTypeKind::deserialize" bounds="stage B of 3; any 41-byte 8-aligned buffer of the shape's layout (bitmap byte fixed to the NULL pattern, every other byte incl. header symbolic)" unwind=3
 hparse!(c18_parse_bool_int_n1, Bool, false, Int, true, 41);
 // @obl harness=c18_build_bool_int id=C18.build_layout[build:BigInt|Bool,Int] native=c18_bool_column_followed_by_value tier=quick funcs="TupleBuilder::build,TupleBuilder::compute_initial_size,TupleBuilder::write_initial,Row::validate,Payload::alloc_aligned,DataType::write_to" bounds="stage A of 3 (A build -> bytes, B parse_last_version -> cursors = c18_parse_bool_int, C value_with/key_with -> values = c18_read_*/c18_read_key); 1 key BigInt + values Bool, Int, no NULL; all value bits and xmin symbolic" unwind=4
 hbuild!(c18_build_bool_int, Bool, false, Int, false);
